@@ -71,6 +71,18 @@ func main() {
 	}
 	// H3/H4: executions concurrent with each other, a schedule change and an epoch notification
 	mixed := 0
+	refs := map[string]uint64{}
+	ref := func(kind string, base uint64) uint64 {
+		k := fmt.Sprint(kind, base)
+		if _, ok := refs[k]; !ok {
+			refs[k] = bodies.RefCharge(kind, base)
+		}
+		return refs[k]
+	}
+	for _, k := range bodies.ExecKinds {
+		ref(k, 1000)
+		ref(k, 5000)
+	}
 	for it := 0; it < iters; it++ {
 		l := bodies.NewLite()
 		kinds := bodies.ExecKinds
@@ -87,7 +99,7 @@ func main() {
 			},
 		})
 		for _, r := range []bodies.ExecResult{r1, r2} {
-			if r.OK && r.Consumed != bodies.Charge(r.Kind, 1000, r) && r.Consumed != bodies.Charge(r.Kind, 5000, r) {
+			if r.OK && r.Consumed != ref(r.Kind, 1000) && r.Consumed != ref(r.Kind, 5000) {
 				mixed++
 				fmt.Fprintf(os.Stderr, "MIXED-CHARGE free-running: %s consumed %d\n", r.Kind, r.Consumed)
 			}
